@@ -80,7 +80,8 @@ class CallMixin:
             return True
         if cfg.opaque_all and q not in cfg.inline and f.closure is None and not isinstance(f.node, ast.Lambda) \
                 and f.mod.name.startswith("htmltools"):
-            return True
+            from .inventory import KNOWN_FUNCTIONS
+            return q in KNOWN_FUNCTIONS     # new helpers (extracted by a refactoring) are analysed as part of their caller
         return False
 
     def call_function(self, f: SFunc, args: List[Any], kwargs: Dict[str, Any], node: Optional[ast.AST] = None,
@@ -204,6 +205,22 @@ class CallMixin:
             if p.arg not in env:
                 raise self.unmodelled(f"missing argument `{p.arg}` for {f.qual}", node)
         return env
+
+    def call_copy_method(self, obj: Any, ci: ClassInfo, fn: ast.FunctionDef, node: Optional[ast.AST]) -> Any:
+        """A class's own __copy__ defines what copy.copy means: it is always interpreted, never summarised."""
+        q = f"{ci.name}.{fn.name}"
+        cfg = self.run.cfg
+        added = q not in cfg.inline
+        was_opaque = q in cfg.opaque
+        cfg.inline.add(q)
+        cfg.opaque.discard(q)
+        try:
+            return self.call_method_def(obj, ci, fn, [], {}, node)
+        finally:
+            if added:
+                cfg.inline.discard(q)
+            if was_opaque:
+                cfg.opaque.add(q)
 
     def call_method_def(self, obj: Any, ci: ClassInfo, fn: ast.FunctionDef, args: List[Any], kwargs: Dict[str, Any],
                         node: Optional[ast.AST]) -> Any:
@@ -422,6 +439,9 @@ class CallMixin:
         raise self.unmodelled(f"isinstance class argument {short(v)}", node)
 
     def isinstance_(self, v: Any, cls: Any, node: Optional[ast.AST]) -> bool:
+        if isinstance(cls, SObj) and not isinstance(v, (str, int, float, bool, type(None))):
+            # the class is itself an unknown value (e.g. a parameter holding a tuple of types)
+            return self.run.decide(("isinstance-of-value", getattr(v, "uid", repr(v)), cls.uid))
         if isinstance(cls, SOpaque) and "type_of" in cls.__dict__:
             other = cls.__dict__["type_of"]
             try:
@@ -690,7 +710,7 @@ class CallMixin:
             if mode == "interpret":
                 ci = self.class_of(v)
                 m = self.prog.find_method(ci, "__copy__")  # type: ignore[arg-type]
-                return self.call_method_def(v, m[0], m[1], [], {}, node)  # type: ignore[index]
+                return self.call_copy_method(v, m[0], m[1], node)  # type: ignore[index]
             nm = getattr(v, "name", None) or v.cls_name  # type: ignore[union-attr]
             if isinstance(v, SNew):
                 o: Any = SNew(v.cls, v.args, v.kwargs, v.star, v.dstar)
@@ -735,10 +755,24 @@ class CallMixin:
         mode = meta.get("copy_mode")
         if src is None or mode is None:
             return _MISSING
+        if mode == "delegate":
+            val = self.get_attr(meta["delegate"], attr, node)
+            o.attrs[attr] = val
+            return val
         if mode == "lazy":
             mode = self.copy_mode(o, node)
             if mode == "interpret":
-                mode = "fieldwise"
+                # the class has a __copy__ that is not the plain field-copy idiom: interpret it on the source
+                ci = self.class_of(o)
+                m = self.prog.find_method(ci, "__copy__")  # type: ignore[arg-type]
+                if isinstance(src, SObj):
+                    self.run.restrict(src, o.kinds)
+                res = self.call_copy_method(src, m[0], m[1], node)  # type: ignore[index]
+                meta["copy_mode"] = "delegate"
+                meta["delegate"] = res
+                val = self.get_attr(res, attr, node)
+                o.attrs[attr] = val
+                return val
             meta["copy_mode"] = mode
             if isinstance(src, SObj):
                 try:
@@ -862,7 +896,38 @@ class CallMixin:
                     return recv.items[key]
                 if recv.concrete and not recv.dstar:
                     return args[1] if len(args) > 1 else None
-                return self.get_item(recv, args[0], node)  # type: ignore[arg-type]
+                v = self.get_item(recv, args[0], node)  # type: ignore[arg-type]
+                if isinstance(v, SObj) and (len(args) < 2 or not isinstance(args[1], Sym)):
+                    v.kinds = v.kinds | {kinds_of_pyvalue(args[1]) if len(args) > 1 else "NONE"}
+                    v.meta["get_default"] = args[1] if len(args) > 1 else None
+                return v
+            if name == "update" and "fields_of" in recv.__dict__ and len(args) == 1 and isinstance(args[0], SDict) and "comp" in args[0].__dict__:
+                comp = args[0].__dict__["comp"]
+                it = comp["iter"]
+                d = getattr(it, "iter_descr", None)
+                src_fields = d[1] if d is not None and d[0] == "items" else None
+                src = src_fields.__dict__.get("fields_of") if isinstance(src_fields, SDict) else None
+                var = comp["var"]
+                val = comp["value"]
+                vsrc = var.items[1] if isinstance(var, SList) and len(var.items) == 2 else None
+                keyv = var.items[0] if isinstance(var, SList) and len(var.items) == 2 else None
+                mode = None
+                if src is not None and not comp["ifs"] and comp["key"] is keyv:
+                    if val is vsrc:
+                        mode = "alias"
+                    elif isinstance(val, SObj) and val.meta.get("copy_of") is vsrc:
+                        mode = "deep" if val.meta.get("copy_mode") == "deep" else "fieldwise"
+                tgt = recv.__dict__["fields_of"]
+                if mode is not None and isinstance(tgt, (SNew, SObj)):
+                    # tgt.__dict__.update({k: copy(v) for k, v in src.__dict__.items()}): tgt is a field-wise copy of src
+                    meta = tgt.meta if isinstance(tgt, SObj) else tgt.__dict__.setdefault("meta", {})
+                    meta["copy_of"] = src
+                    meta["copy_mode"] = mode
+                    meta["elem_origin"] = _elem_origin(src)
+                    if isinstance(tgt, SNew) and isinstance(src, (SObj, SNew)):
+                        tgt.__dict__["class_like"] = src
+                    run.effect("copy", src, None, mode == "deep", node)
+                    return None
             if name in _DICT_MUTATORS:
                 run.effect("mutcall", recv, name, list(args), node, extra=dict(kwargs))
                 if name == "update" and recv.concrete and args and isinstance(args[0], (SDict, dict)) and not kwargs:
@@ -919,6 +984,19 @@ class CallMixin:
                 out.extend(s.frags)
             r = SStr(out)
             return r.const() if r.is_const() else r
+        if isinstance(seq, SList) and seq.mode == "carried" and "loop" in seq.__dict__ and sep.is_const() and sep.const() == "":
+            # parts.append(...) in a loop, then "".join(parts): the same stream as `acc += ...` in that loop
+            entry = seq.__dict__.get("entry")
+            pre: List[Frag] = []
+            ok = True
+            for it in (entry.items if isinstance(entry, SList) else list(entry or [])):
+                s0 = self.as_sstr(it)
+                if s0 is None:
+                    ok = False
+                    break
+                pre.extend(s0.frags)
+            if ok:
+                return SStr(pre + [Frag("LOOP", seq.__dict__["loop"], seq.name)])
         if isinstance(seq, SList) and seq.mode == "map":
             item = self.as_sstr(seq.elt)
             payload = {"sep": sep, "item": item if item is not None else seq.elt, "over": seq.base, "var": seq.var, "cond": seq.cond}
